@@ -108,15 +108,14 @@ def run_unit(arg):
             if ob.verdict == "discharged" and ob.kind in ("post", "lemma") and tier == "thorough":
                 d["cover"] = cover_check(ob)
             if ob.verdict == "refuted":
-                inputs = {}
-                if ob.model is not None:
-                    for k, v in ob.inputs.items():
-                        try:
-                            inputs[k] = model_value(ob.model, v)
-                        except Exception as e:  # noqa
-                            inputs[k] = f"<unrenderable: {e}>"
+                inputs = ob.model if isinstance(ob.model, dict) else {}
                 d["model_inputs"] = inputs
                 d["goal"] = ob.goal.sexpr()[:2000]
+                if kind == "lemma" and isinstance(ob.model, dict):
+                    try:
+                        d["replay"] = native.replay_lemma(lem, inputs)
+                    except BaseException as e:  # noqa
+                        d["replay"] = {"confirmed": False, "error": repr(e)[:500]}
                 if c is not None and ob.model is not None and ob.kind in ("post", "raises", "frame", "safe"):
                     try:
                         d["replay"] = native.replay(c, inputs)
